@@ -100,10 +100,12 @@ func (c *checker) call(name string, fn func()) {
 	}
 }
 
-func checkSeries(st *seriesStats, scale float64, c *checker) int {
+// checkSeries compares all accessors on the series xs*scale + off (scale a power of two, off an integer: every value is
+// exact; the definitions give min/max/sum/quantiles*scale + off (sum: + n*off) and a variance that does not depend on off).
+func checkSeries(st *seriesStats, scale, off float64, c *checker) int {
 	x := make(experiment.Floats, len(st.Xs))
 	for i, v := range st.Xs {
-		x[i] = float64(v) * scale
+		x[i] = float64(v)*scale + off
 	}
 	orig := append(experiment.Floats(nil), x...)
 	n := float64(st.N)
@@ -111,10 +113,10 @@ func checkSeries(st *seriesStats, scale float64, c *checker) int {
 	if st.VarDen != 0 {
 		variance = float64(st.VarNum) * scale * scale / float64(st.VarDen)
 	}
-	c.call("Min", func() { c.eq("Min", x.Min(), float64(st.Min)*scale) })
-	c.call("Max", func() { c.eq("Max", x.Max(), float64(st.Max)*scale) })
-	c.call("Sum", func() { c.eq("Sum", x.Sum(), float64(st.Sum)*scale) })
-	c.call("Mean", func() { c.near("Mean", x.Mean(), float64(st.Sum)*scale/n) })
+	c.call("Min", func() { c.eq("Min", x.Min(), float64(st.Min)*scale+off) })
+	c.call("Max", func() { c.eq("Max", x.Max(), float64(st.Max)*scale+off) })
+	c.call("Sum", func() { c.eq("Sum", x.Sum(), float64(st.Sum)*scale+n*off) })
+	c.call("Mean", func() { c.near("Mean", x.Mean(), float64(st.Sum)*scale/n+off) })
 	c.call("Variance", func() { c.near("Variance", x.Variance(), variance) })
 	c.call("StdDev", func() { c.near("StdDev", x.StdDev(), math.Sqrt(variance)) })
 	c.call("MeanVariance", func() {
@@ -123,12 +125,12 @@ func checkSeries(st *seriesStats, scale float64, c *checker) int {
 			c.bad += "MeanVariance did not return two values; "
 			return
 		}
-		c.near("MeanVariance[0]", mv[0], float64(st.Sum)*scale/n)
+		c.near("MeanVariance[0]", mv[0], float64(st.Sum)*scale/n+off)
 		c.near("MeanVariance[1]", mv[1], variance)
 	})
-	c.call("Median", func() { c.eq("Median", x.Median(), float64(st.Med)*scale) })
-	c.call("Q25", func() { c.eq("Q25", x.Q25(), float64(st.Q25)*scale) })
-	c.call("Q75", func() { c.eq("Q75", x.Q75(), float64(st.Q75)*scale) })
+	c.call("Median", func() { c.eq("Median", x.Median(), float64(st.Med)*scale+off) })
+	c.call("Q25", func() { c.eq("Q25", x.Q25(), float64(st.Q25)*scale+off) })
+	c.call("Q75", func() { c.eq("Q75", x.Q75(), float64(st.Q75)*scale+off) })
 	for i := range x {
 		if x[i] != orig[i] {
 			c.bad += "the accessors reordered the caller's series; "
@@ -260,7 +262,12 @@ func replayStats(args []string) int {
 			c.call("Sum", func() { c.eq("Sum of the empty series", x.Sum(), float64(sc.Sum)) })
 		case "series":
 			for _, scale := range []float64{1, 0.25, 4096} {
-				rep.Evaluations += checkSeries(sc.St, scale, c)
+				rep.Evaluations += checkSeries(sc.St, scale, 0, c)
+				if scale == 1 {
+					// the same series far from zero (values large relative to their spread)
+					rep.Evaluations += checkSeries(sc.St, 1, 1<<30, c)
+					rep.Evaluations += checkSeries(sc.St, 1, -(1 << 40), c)
+				}
 			}
 			unsorted := false
 			for i := 1; i < len(sc.St.Xs); i++ {
